@@ -84,6 +84,7 @@ fn shrink_op(op: &Op) -> Vec<Op> {
         }
         Op::SetRounds(r) if *r > 1 => vec![Op::SetRounds(1), Op::SetRounds(r / 2)],
         Op::CloneThen(inner) => vec![(**inner).clone()],
+        Op::CloneFromThen(inner) => vec![Op::CloneThen(inner.clone()), (**inner).clone()],
         _ => vec![],
     }
 }
